@@ -50,6 +50,7 @@ TReset == /\ Is("header")
           /\ recvd' = [port \in AllInPorts |-> <<>>]
           /\ strm' = StrmInit
           /\ cb' = CbInit
+          /\ csub' = CsubInit
 
 \* result of the wiring phase as logged by the implementation = static wiring of the model
 TWire == /\ Is("wire")
@@ -147,10 +148,16 @@ TEnd ==
   /\ UNCHANGED vars
 
 \* the components have no hooks at their receives: draining, combine() and wg.Wait() are silent steps
-TSilent == CombStep /\ UNCHANGED l
+\* ... and so are the choice of the next joined in-port and the end of its sub-stream (the members themselves are logged: "ct.sub")
+SubSilent == \E n \in CmdRun : \/ \E jp \in JoinPortsOf(n) : CTSubPick(n, jp)
+                               \/ (csub[n].cur # "" /\ ctpc[n] = "build" /\ CTSub(n, 0))
+TSilent == (CombStep \/ SubSilent) /\ UNCHANGED l
+TSub == /\ Is("ct.sub")
+        /\ csub[Ev.proc].cur = Ev.port /\ ctpc[Ev.proc] = "build"
+        /\ \E i \in DOMAIN q[SubChan(Ev.proc)] : q[SubChan(Ev.proc)][i][2] = Ev.item /\ CTSub(Ev.proc, i)
 
 TraceNext ==
-  \/ TSilent
+  \/ TSilent \/ TSub
   \/ TReset \/ TRelayRecv \/ TEmFinish \/ TWire \/ TStart \/ TSendBegin \/ TSendDone \/ TClose \/ TProcStart \/ TRecv
   \/ TTaskNew \/ TTaskTake \/ TFifoCreate \/ TFifoRemove \/ TDoneRecv \/ TSinkRecv \/ TFail \/ TReturn \/ TEnd
   \/ TSimple("ct.end", CTEnd) \/ TSimple("tasks.closed", TasksClosed) \/ TSimple("proc.exit", RunExit)
